@@ -193,6 +193,7 @@ func runC17(c *Ctx) {
 		return
 	}
 	capsOf := map[string]uint16{}
+	twice := map[string]bool{}
 	verOf := map[string][2]byte{}
 	for _, p := range tw.Plans {
 		var caps uint16
@@ -215,6 +216,16 @@ func runC17(c *Ctx) {
 		major, minor := byte(c.T.Choose(256)), byte(c.T.Choose(256))
 		capsOf[p.Name], verOf[p.Name] = caps, [2]byte{major, minor}
 		p.Pkts = []CPkt{PHandshake(caps, major, minor), PTunnelCreate(ValidCookie(c, tw, p, p.AllowedHost), true), PTunnelAuth("n")}
+		if c.T.Bool(1, 5) {
+			// a client that shakes hands twice (a retry, or a second offer with other capabilities
+			// and another version): the second request is out of order whatever it offers and is
+			// never answered with success - not with the answer to the first one either
+			caps2 := []uint16{caps, 0, 1, 2, 4, 0x8000, ^caps}[c.T.Choose(7)]
+			second := PHandshake(caps2, byte(c.T.Choose(256)), byte(c.T.Choose(256)))
+			p.Pkts = append([]CPkt{p.Pkts[0], second}, p.Pkts[1:]...)
+			twice[p.Name] = true
+			c.S.Count("probe.second_handshake_on_one_tunnel")
+		}
 		if len(tw.Plans) == 1 && c.T.Bool(1, 4) {
 			// a client that takes its time (a credential prompt, a suspended laptop): the transport
 			// is up, the handshake follows half a minute to three minutes later
@@ -290,7 +301,7 @@ func runC17(c *Ctx) {
 			}
 		} else {
 			c.S.Count("probe.capability_match")
-			if v.Reached < stCreated {
+			if v.Reached < stCreated && !twice[p.Name] {
 				c.S.Fail("C17", "cannot-proceed", "%s: handshake matched (client %#x, server %#x) but the tunnel could not proceed: %s", p.Name, caps, tw.MC.ServerCaps, t.Client.Describe())
 			}
 		}
